@@ -48,6 +48,37 @@ func drawKey(t *rapid.T, label string) key {
 	default:
 		enc = pub.SerialiseCompressed()
 	}
+	// encodings that are not a key: a legal length with the format byte of the other length, a
+	// legal format byte with a neighbouring length, undefined format bytes, an X that is on no curve
+	// point, hybrid with the wrong parity. What the rules make of them depends on STRICTENC (hard
+	// failure before anything else) or not (the signature check is simply false).
+	if rapid.IntRange(0, 11).Draw(t, label+"_badenc") == 0 {
+		c, u := pub.SerialiseCompressed(), pub.SerialiseUncompressed()
+		switch rapid.IntRange(0, 9).Draw(t, label+"_badenc_k") {
+		case 0:
+			enc = append([]byte{rapid.SampledFrom([]byte{0x04, 0x06, 0x07}).Draw(t, label+"_fmt")}, c[1:]...)
+		case 1:
+			enc = append([]byte{rapid.SampledFrom([]byte{0x02, 0x03}).Draw(t, label+"_fmt")}, u[1:]...)
+		case 2:
+			enc = c[:32]
+		case 3:
+			enc = append(append([]byte{}, c...), 0x00)
+		case 4:
+			enc = u[:64]
+		case 5:
+			enc = append(append([]byte{}, u...), 0x00)
+		case 6:
+			enc = append([]byte{rapid.SampledFrom([]byte{0x00, 0x01, 0x05, 0x08, 0xff}).Draw(t, label+"_fmt")}, c[1:]...)
+		case 7:
+			enc = append([]byte{rapid.SampledFrom([]byte{0x00, 0x05, 0x08, 0xff}).Draw(t, label+"_fmt")}, u[1:]...)
+		case 8: // X = 5 is the abscissa of no point on secp256k1
+			enc = append([]byte{0x02}, make([]byte, 32)...)
+			enc[32] = 0x05
+		default: // hybrid whose format byte claims the other parity
+			enc = pub.SerialiseHybrid()
+			enc[0] ^= 0x01
+		}
+	}
 	return key{priv: priv, pub: enc}
 }
 
